@@ -3,10 +3,15 @@
      OK <family> <seed> <idx> states=<n> items=<n>
      REJECT <family> <seed> <idx> item=<i> line=<lineno> <what the model expected>
      FUEL <family> <seed> <idx> item=<i> line=<lineno>
-     FAULT <family> <seed> <idx> <text>         (harness-side monitors)            *)
+     FAULT <family> <seed> <idx> <text>         (harness-side monitors)
+   Every scenario - racing ones included, which cannot be replayed (no quiescence between the environment actions) -
+   is also judged by the monitors of coq/loop/LoopMonitors.v (proved sound for every run of the model) on its
+   environment lines and its observation lines, each in log order:
+     REJECT <family> <seed> <idx> monitor <name>                                    *)
 open Common
 module M = Model.Loop
 module A = Model.LoopAccept
+module Mon = Model.LoopMonitors
 
 let nat s = nat_of_int (int_of_string s)
 let nomatch = M.OCall (nat_of_int 777, nat_of_int 777)   (* an observation the model never produces *)
@@ -27,6 +32,13 @@ let parse_obs (f : string list) : M.obs =
   | ["return"; "nil"] -> M.OReturn M.RNil
   | ["return"; "err"] -> M.OReturn M.RErr
   | _ -> nomatch
+
+(* for the monitors RErr is "Loop returned an error": an error other than the accepter's own is one too (for the
+   replay it stays an observation the model never produces) *)
+let parse_obs_mon (f : string list) : M.obs =
+  match f with
+  | ["return"; v] when String.length v >= 6 && String.sub v 0 6 = "other:" -> M.OReturn M.RErr
+  | _ -> parse_obs f
 
 let parse_env (f : string list) : M.label =
   match f with
@@ -71,6 +83,8 @@ let () =
   let items = ref [] in
   let faults = ref [] in
   let have_cfg = ref false in
+  let envs = ref [] in       (* environment labels of the scenario, reversed (no `env tick`: it is no label) *)
+  let allobs = ref [] in     (* observations of the scenario, reversed *)
   let race = ref false in   (* racing scenarios (no quiescence between actions) are judged by the monitors only *)
   let flush_cur () =
     (match !cur with
@@ -83,7 +97,7 @@ let () =
                       String.concat "; " (List.map show_obs os)) :: !faults
        end else
        let it = (match f with
-           | "env" :: rest -> A.IEnv (parse_env rest, os)
+           | "env" :: rest -> let lb = parse_env rest in envs := lb :: !envs; A.IEnv (lb, os)
            | ["rel"; "loop.conn"; k] -> A.IRel (M.SConn, Some (nat k), os)
            | ["rel"; "loop.conn"] -> A.IRel (M.SConn, None, os)
            | ["rel"; "loop.finish"] -> A.IRel (M.SFinish, None, os)
@@ -96,10 +110,10 @@ let () =
       match f with
       | ["cfg"; h] ->
         hooks := (h = "1"); race := (h = "2"); have_cfg := true;
-        items := []; faults := []; cur := None; obs := []
+        items := []; faults := []; cur := None; obs := []; envs := []; allobs := []
       | "scenario" :: fam :: seed :: idx :: _ -> hdr := String.concat " " [fam; seed; idx]
       | "env" :: _ | "rel" :: _ -> flush_cur (); cur := Some (f, ln)
-      | "o" :: rest -> obs := parse_obs rest :: !obs
+      | "o" :: rest -> obs := parse_obs rest :: !obs; allobs := parse_obs_mon rest :: !allobs
       | ["parked"; nc; nf] -> flush_cur (); items := (A.IParked (nat nc, nat nf), ln) :: !items
       | ["final"; ret; closes; _left] ->
         flush_cur ();
@@ -110,11 +124,36 @@ let () =
         flush_cur ();
         let its = List.rev !items in
         List.iter (fun x -> Printf.printf "FAULT %s %s\n" !hdr x) (List.rev !faults);
+        (* the proved monitors, on every scenario.  The environment lines of a log are [env_of tr] without the
+           closing errors the accepter produced by itself (LoopMonitors.mon_all_sound covers both).  In a racing log
+           the lines of two racing newService calls may be written in the other order (the harness draws the index
+           under one lock and writes the line under another): there the order-free form of (c) is evaluated. *)
+        let env = Mon.env_of (List.rev !envs) and os = List.rev !allobs in
+        let mons =
+          [ ("mon_finish_once", Mon.mon_finish_once);
+            ("mon_return_last", Mon.mon_return_last);
+            (if !race then ("mon_fresh_service_unordered", Mon.mon_fresh_service_unordered)
+             else ("mon_fresh_service", Mon.mon_fresh_service));
+            ("mon_assigner_call", Mon.mon_assigner_call);
+            ("mon_return_served", Model.LoopMonServed.mon_return_served) ] in
+        let nmon = ref 0 in
+        let mon_rejected = ref false in
+        if !have_cfg then
+          List.iter (fun (name, m) ->
+              incr nmon;
+              if not (m env os) then begin
+                mon_rejected := true;
+                Printf.printf "REJECT %s monitor %s\n" !hdr name
+              end) mons;
         if not !have_cfg then Printf.printf "BADLOG %s no cfg\n" !hdr
-        else if !race then Printf.printf "OK %s skipped racing-log\n" !hdr
-        else begin
+        else if !race then begin
+          (* racing mode has no windows: the log is judged by the monitors only *)
+          if not !mon_rejected then Printf.printf "OK %s skipped racing-log (monitors only) monitors=%d\n" !hdr !nmon
+        end else begin
           match A.accept !hooks [M.init true] (List.map fst its) Model.Datatypes.O with
-          | A.Accepted (n, _) -> Printf.printf "OK %s states=%d items=%d\n" !hdr (int_of_nat n) (List.length its)
+          | A.Accepted (n, _) ->
+            if not !mon_rejected then
+              Printf.printf "OK %s states=%d items=%d monitors=%d\n" !hdr (int_of_nat n) (List.length its) !nmon
           | A.OutOfFuel i ->
             let i = int_of_nat i in
             Printf.printf "FUEL %s item=%d line=%d\n" !hdr i (snd (List.nth its i))
